@@ -54,6 +54,7 @@ Effect(e) ==
       [] e.ev = "join" -> Join(e.c, Sid(e), Tid(e), Gid(e))
       [] e.ev = "leave" -> Leave(e.c, Sid(e), Tid(e), Gid(e))
       [] e.ev = "disconnect" -> Disconnect(e.c)
+      [] e.ev = "expire" -> Expire(e.c)
       [] e.ev = "send" -> SendTo(Sid(e), Tid(e), e.p, e.k)
       [] e.ev = "create_user" -> CreateUser(e.rid, e.name, e.active)
       [] e.ev = "update_user" -> UpdateUser(Uid(e), e.name, e.active)
@@ -70,7 +71,7 @@ Applicable(e) ==
       [] OTHER -> TRUE
 
 InputLabels(e) ==
-    (IF e.ev \notin {"restart", "disconnect"} /\ Ok(e) # Allowed(e)
+    (IF e.ev \notin {"restart", "disconnect", "expire"} /\ Ok(e) # Allowed(e)
      THEN {<<"C06.outcome", e.ev, e.res, Allowed(e)>>} ELSE {})
     \cup (IF e.ev = "restart" /\ ~Ok(e) THEN {<<"C05.restart", e.res>>} ELSE {})
     \cup (IF e.res \in {"panic", "closed"} THEN {<<"C06.panic", e.ev, e.res>>} ELSE {})
@@ -109,7 +110,7 @@ Fatal(e) == UNCHANGED vars /\ dead' = TRUE /\ bad' = {<<"X.fatal", e.ev, e.fatal
 Skip == UNCHANGED <<vars, dead>> /\ bad' = {}
 
 Step(e) ==
-    /\ IF (Ok(e) /\ Applicable(e)) \/ e.ev \in {"restart", "disconnect"} THEN Effect(e) ELSE Refused
+    /\ IF (Ok(e) /\ Applicable(e)) \/ e.ev \in {"restart", "disconnect", "expire"} THEN Effect(e) ELSE Refused
     /\ dead' = dead
     /\ bad' = InputLabels(e) \cup SweepLabels(e)
 
